@@ -144,14 +144,9 @@ func runC05(c *Ctx) {
 	// the case gate helper is the same validateCase as Decode's (decided under C04)
 	if dec := c.P.Func("pkg/bech32", "Decode"); dec != nil {
 		db := ana.NewBuilder(c.P, dec)
-		var a, bb *ssa.Function
-		for _, ce := range edgesMatching(db, "bin<==>(call<*>(p0), nil)") {
-			a = calleeOf(ce.Lit.Arg(0))
-		}
-		for _, ce := range edgesMatching(b, "bin<==>(call<*>(p0), nil)") {
-			bb = calleeOf(ce.Lit.Arg(0))
-		}
-		r.Check(a != nil && a == bb, "C05.exits.case-sibling", c.P.Pos(fn.Pos()), "Encode and Decode use the same case validation routine")
+		a, ua := uniqueCallee(edgesMatching(db, "bin<==>(call<*>(p0), nil)"))
+		bb, ub := uniqueCallee(edgesMatching(b, "bin<==>(call<*>(p0), nil)"))
+		r.Check(a != nil && a == bb && ua && ub, "C05.exits.case-sibling", c.P.Pos(fn.Pos()), "Encode and Decode use the same case validation routine")
 	}
 
 	// ---- value terms
